@@ -19,6 +19,7 @@ step).  A schedule is a list of choices 'I' | 'C' | 'W' | 'T' | ['X', uid, code]
 
 Nothing in the repository is changed (no hooks).
 """
+import json
 import queue
 import sys
 import threading
@@ -29,6 +30,7 @@ EV_CLIST_BOOL, EV_LOCK, EV_CLIST_IN, EV_CLIST_REMOVE, EV_CLIST_EXTEND = 1, 2, 3,
 EV_TASKS_UPDATE, EV_TASKS_IN, EV_TASKS_DEL, EV_TASKS_GET, EV_TASKS_POP = 7, 8, 9, 10, 11
 EV_SPAWN, EV_PROC_SET, EV_PROC_GET, EV_PROC_ITEM, EV_PROC_DEL, EV_PID = 12, 13, 14, 15, 16, 17
 EV_POLL, EV_WAIT, EV_KILL = 18, 19, 20
+EXECUTOR_GROUP = 'pgid-of-the-executor'
 EV_WQ_PUT, EV_WQ_GET, EV_WQ_EMPTY, EV_EXIT, EV_CHECK = 23, 24, 25, 26, 27
 EV_OTHER = 99
 NON_MARKING = {EV_WQ_GET, EV_WQ_EMPTY, EV_PROC_SET}    # a round of pulls ends when _check_running is entered (EV_CHECK)
@@ -415,7 +417,15 @@ def build(rp, world, case):
     ex._owner = 'verif'
     ex._cfg = mock.MagicMock()
     ex._session = mock.MagicMock()
-    ex._session.rcfg.new_session_per_task = False
+    # `new_session_per_task` of the resource configuration: every launch process leads a process group of its own
+    # (the default), or all of them stay in the group of the executor.  Cases that do not say take either, decided
+    # by their content (so that a replay decides the same)
+    own = case.get('own_session')
+    if own is None:
+        import zlib
+        own = zlib.crc32(json.dumps([case.get('batches'), case.get('cancels'), case.get('sched')],
+                                    sort_keys=True, default=str).encode()) % 5 >= 2
+    ex._session.rcfg.new_session_per_task = bool(own)
     ex._term = Term()
     ex._tasks = TasksD()
     ex._check_lock = WLock(world, LOCK_CHECK)
@@ -517,6 +527,7 @@ def build(rp, world, case):
                 raise OSError('injected: spawn failed')
             world.rec(EV_SPAWN, u, 1)
             p = FakeProc(world, u, faults.get(u) == 'afterspawn', stubborn=bool(stub_flags.get(u)))
+            p.own_group = bool(kw.get('start_new_session'))
             world.procs[u] = p
             return p
 
@@ -526,7 +537,30 @@ def build(rp, world, case):
             return getattr(os, k)
 
         @staticmethod
+        def getpgid(pid):
+            p = pid.proc
+            if p.state != 'running':
+                world.rec(EV_KILL, p.u, 0)          # no such process: what a signal would have met
+                raise ProcessLookupError('no such process')
+            return pid if p.own_group else EXECUTOR_GROUP
+
+        @staticmethod
         def killpg(pid, sig):
+            if pid is EXECUTOR_GROUP:
+                # the executor, the rest of the agent and every task that was not given a session of its own
+                world.anomalies.append('signal %s sent to the process group of the executor' % sig)
+                for q in world.procs.values():
+                    if q.state == 'running' and not q.own_group and not q.stubborn:
+                        world.rec(EV_KILL, q.u, 1)
+                        q.state = 'killed'
+                return
+            if pid.proc.state == 'running' and not pid.proc.own_group:
+                world.rec(EV_KILL, pid.proc.u, 0)   # a running process that leads no group: ESRCH, nothing is signalled
+                raise ProcessLookupError('no such process group')
+            return FakeOS.kill(pid, sig)
+
+        @staticmethod
+        def kill(pid, sig):
             p = pid.proc
             if p.state == 'running' and p.stubborn:
                 world.rec(EV_KILL, p.u, 2)          # delivered, without effect
@@ -809,7 +843,7 @@ def gen_scenario(rng, ntasks=None):
                 m.append(9)                      # a uid the executor never sees
             cancels.append(m)
     exits = {str(u): rng.choice([0, 0, 1, 3]) for u in uids}
-    return {'batches': batches, 'cancels': cancels, 'exit_codes': exits}
+    return {'batches': batches, 'cancels': cancels, 'exit_codes': exits, 'own_session': rng.random() < 0.6}
 
 
 def gen_sched(rng, sc, length=None):
